@@ -17,7 +17,7 @@ def gen_config(rng, max_vials=30, max_steps=900, cn=False):
         if shape[0] * shape[1] * shape[2] <= max_vials:
             break
     k = {"int": rng.choice([0, 5, 20, 20, 50]), "ext": rng.choice([0, 5, 20, 20, 40]),
-         "s0": rng.choice([10, 20, 20, 50, 100]), "s_sigma_rel": rng.choice([0, 0, 0.1, 0.3])}
+         "s0": rng.choice([10, 20, 20, 50, 100]), "s_sigma_rel": rng.choice([0, 0, 0.1, 0.3, 0.6])}
     start = rng.choice([20, 20, 10, 5, 0])
     end = rng.choice([-50, -50, -40, -30, -60])
     rate = rng.choice([0.5 / 60, 1 / 60, 2 / 60, 0.1])
@@ -118,7 +118,23 @@ def run(cfg, storeStates="all", script=None):
     N = S.N_vials_total
     hs = np.broadcast_to(np.asarray(S.H_shelf, dtype=float), (N,)).copy()
     return dict(S=S, XT=np.array(S.X_T), XS=np.array(S.X_sigma), stats={k: np.array(v) for k, v in S.stats.items()},
-                shelf=np.asarray(S.opcond.tempProfile(S.dt), dtype=float), hshelf=hs, draws=S._rng.draws, N=N,
+                shelf=np.asarray(S.opcond.tempProfile(S.dt), dtype=float), hshelf=hs, draws=S._rng.draws, N=N, shape=tuple(S.N_vials),
+                nsteps=int(math.ceil(S.opcond.t_tot / S.dt)) + 1)
+
+
+def rerun(r, mutate):
+    """run the SAME object again after mutate(S) (a history on one object); returns a fresh result dict"""
+    S = r["S"]
+    with impl.quiet():
+        mutate(S)
+        with patched_rng(CountingRng) as pr:
+            S.run()
+        if pr.made:
+            S._rng = pr.made[-1]
+    N = S.N_vials_total
+    hs = np.broadcast_to(np.asarray(S.H_shelf, dtype=float), (N,)).copy()
+    return dict(S=S, XT=np.array(S.X_T), XS=np.array(S.X_sigma), stats={k: np.array(v) for k, v in S.stats.items()},
+                shelf=np.asarray(S.opcond.tempProfile(S.dt), dtype=float), hshelf=hs, draws=getattr(S._rng, "draws", []), N=N, shape=tuple(S.N_vials),
                 nsteps=int(math.ceil(S.opcond.t_tot / S.dt)) + 1)
 
 
@@ -151,7 +167,7 @@ def blist(v):
 
 def coq_step_case(r, steps):
     """text of one flake_case_ok case holding the given step indices (each k needs column k+1)"""
-    S, cfg_shape = r["S"], r["S"].N_vials
+    S, cfg_shape = r["S"], r.get("shape") or r["S"].N_vials
     dec = decisions(r)
     recs = []
     for k in steps:
@@ -163,7 +179,7 @@ def coq_step_case(r, steps):
 
 
 def coq_run_case(r):
-    S, shp = r["S"], r["S"].N_vials
+    S, shp = r["S"], r.get("shape") or r["S"].N_vials
     dec = decisions(r)
     st = r["stats"]
     stats = coq_list("(%s, %s, %s)" % (fhex(a), fhex(b), fhex(c)) for a, b, c in zip(st["t_nucleation"], st["T_nucleation"], st["t_solidification"]))
